@@ -24,7 +24,8 @@ func init() {
 			"R5 the start-after cursor crosses the select, debug and unify wrappers unchanged (Sub: translated, decided under C13.R3). " +
 			"R5 the start-after cursor reaches the request URL only through url.Values / url.QueryEscape. " +
 			"R6 listing iterators are re-runnable: the returned iterator value assigns to no variable (and through no pointer) of the call that created it, and a request captured by the client's pager is never written through; R7 the server cuts a page at the requested n, never at a limit derived from MaxListPageSize. " +
-			"R7c a constant page limit stands in for n only when no positive n was requested (a positive n is never silently lowered); R8 (shared with C15.R4) the unifier's merge clears a member's listing error only when that very error is name-unknown.",
+			"R7c a constant page limit stands in for n only when no positive n was requested (a positive n is never silently lowered); R8 (shared with C15.R4) the unifier's merge clears a member's listing error only when that very error is name-unknown. " +
+			"R9 (shared with C15.R9) mergeIter returns a plain sequence only where both members' errors are known nil.",
 		NotDecided: "ascending order, completeness across pages and de-duplication as value facts (which items a listing contains for given contents, page sizes and start points) are not decided; only the protocol and plumbing clauses above are.",
 		Technique:  "static analysis: CFG path search (no-yield-after-stop typestate), SSA provenance of sorted slices and continuation keys",
 	})
@@ -46,6 +47,7 @@ func runC05(c *core.Ctx) {
 	pageLimitIsTheRequestedOne(c, "C05.R7")
 	pageCutOnlyAtTheRequestedSize(c, "C05.R7")
 	mergeIterForgiveness(c, "C05.R8")
+	mergedListingPlainOnlyWithoutError(c, "C05.R9")
 }
 
 // yieldParam returns the consumer parameter (func(...) bool) of fn, if any.
